@@ -55,6 +55,10 @@ def main():
         if rc:   # /repo has moved on (fix: commits): fall back to a 3-way merge of the hunk
             rc, log = sh(["git", "-C", wt, "apply", "--3way", os.path.join(seed, "patch.diff")])
             out["applied_3way"] = rc == 0
+            if rc == 0:     # a 3-way application may leave conflict markers behind: that is NOT the seeded change
+                rc2, log2 = sh(["grep", "-rlE", "^(<<<<<<<|>>>>>>>) ", os.path.join(wt, "typedpy")])
+                if rc2 == 0:
+                    rc, log = 1, "3-way application left conflict markers in: " + log2
         out["patch_applies"] = rc == 0
         if rc:
             out["apply_log"] = log[-1500:]
